@@ -40,7 +40,7 @@ theorem c01_report_is_group_signature_g1 (hr : ∀ P : E, G1.r • P = 0) (f : L
   intro rep hrep
   have h1 := Props.C01Compose.c01_report_is_group_signature codecE f (fun c => φ (H c)) t n p a mb r fc
     c0 hc0 hlen rep hrep
-  have h2 := Props.C01.report_valid (fun _ _ => True) _ (fun _ _ _ => trivial) p a mb r fc c0 hc0 hlen
+  have h2 := Props.C01.report_valid_of_content (fun _ _ => True) _ (fun _ _ _ => trivial) p a mb r fc c0 hc0 hlen
     rep hrep
   refine ⟨h2.1, ?_, h2.2.2⟩
   have h1' : (G1.decode rep.sig).map φ = some ((f.headD 0).val • φ (H c0)) := h1
